@@ -27,7 +27,7 @@ RULE = ("per run a history of 6-40 operations: create mode (ECB/CBC/CFB-s/OFB/CT
 REAL = ["pyaes.aes (AES, all modes, Counter)", "pyaes.blockfeeder (Encrypter, Decrypter, stream pumps)", "pyaes.util",
         "register_crypto_plugin.AES128Proxy via bec2format.crypto.create_AES128"]
 STUBS = ["input/output streams: SimByteStream (short reads)", "RefAES (bit-level reference)"]
-PROBES = ["both-directions-on-one-object", "ctr-wrap", "cfb-partial-final-segment", "feeder-chunk-zero", "short-read", "adapter-reused",
+PROBES = ["key-in-reused-buffer", "both-directions-on-one-object", "ctr-wrap", "cfb-partial-final-segment", "feeder-chunk-zero", "short-read", "adapter-reused",
           "adapter-trailing-zero-plaintext", "interleaved-objects", "key-24", "key-32", "pump-block-size-1",
           "decrypter-pkcs7"]
 ASSUMPTIONS = ["sharing one *mode* object between two feeders has no defined result and is not generated"]
@@ -66,6 +66,9 @@ def gen(st, tier):
                 o = {"id": nobj, "kind": kind, "mode": mode, "key": key, "iv": iv, "seg": seg, "ctr": str(ctr),
                      "dir": w.choice(["enc", "dec"]),
                      "pad": w.choice(["default", "default", "none"]) if mode in ("ecb", "cbc") else "default"}
+            if kind != "adapter" and w.random() < 0.3:
+                # the caller's key lives in a reusable buffer (bytearray) that is overwritten for the next key
+                o["keybuf"] = w.randrange(2)
             objs.append(o)
             ops.append(["new", o])
             nobj += 1
@@ -122,9 +125,21 @@ def _pkcs7(data):
     return data + bytes([p]) * p
 
 
+_KEYBUFS = [bytearray(), bytearray()]
+
+
+def _key_of(o):
+    key = bytes.fromhex(o["key"])
+    if o.get("keybuf") is None:
+        return key
+    buf = _KEYBUFS[o["keybuf"]]
+    buf[:] = key            # same buffer object, new content
+    return buf
+
+
 def _make_mode(o):
     aes = env.pyaes.aes
-    key = bytes.fromhex(o["key"])
+    key = _key_of(o)
     iv = bytes.fromhex(o["iv"]) if o["iv"] else None
     m = o["mode"]
     if m == "ecb":
@@ -161,6 +176,8 @@ def run(case):
     blockfeeder = env.pyaes.blockfeeder
     rnd = random.Random(case["data"])
     st = {}
+    _KEYBUFS[0][:] = b""
+    _KEYBUFS[1][:] = b""
     last_obj = None
     switches = 0
     nops = 0
@@ -180,9 +197,9 @@ def run(case):
                     elif o["kind"] == "direct":
                         s["obj"] = _make_mode(o)
                     elif o["kind"] == "raw":
-                        k_ = bytes.fromhex(o["key"])
+                        k_ = _key_of(o)
                         s["obj"] = env.pyaes.aes.AESModeOfOperationECB(k_) if o["ecb"] else env.pyaes.aes.AES(k_)
-                        s["ref"] = refaes.RefAES(k_)
+                        s["ref"] = refaes.RefAES(bytes.fromhex(o["key"]))
                         s["calls"] = []
                     elif o["kind"] == "feeder":
                         mode = _make_mode(o)
@@ -208,6 +225,8 @@ def run(case):
                 except Exception as e:
                     out.fail("C16.create-raises", exc_site(e), "creating %s raised %s: %s" % (o, type(e).__name__, e))
                     return out
+                if o.get("keybuf") is not None:
+                    out.probes["key-in-reused-buffer"] += 1
                 if len(o.get("key", "")) == 48:
                     out.probes["key-24"] += 1
                 if len(o.get("key", "")) == 64:
